@@ -430,3 +430,68 @@ func runRound5(r *Rng, tier string, keys []*keyPair) {
 		}
 	}
 }
+
+// ---------------------------------------------------------------- (c) signature TEXT (round 9b)
+// The Signature field of a caller-built RRSIG is a TEXT (base64, RFC 4648 4 with padding). The mutations above
+// change the decoded octets and re-encode them, so the text was always well formed. Here the TEXT is altered:
+// characters outside the alphabet appended / prepended / inserted, extra padding, white space, the URL alphabet,
+// a complete group after the padding, padding replaced by a digit, the last 1..3 characters cut. None of these
+// texts is the base64 encoding of the signature octets (each is either no base64 at all or decodes to another,
+// longer or shorter octet string); "any change to ... signature makes it fail".
+// Left out on purpose: CR / LF (encoding/base64 skips them) and changes of the unused low bits of the last
+// digit before padding (a lenient decoder yields the same octets) - the property does not say that two texts
+// for the SAME octets must be told apart.
+type sigTextMut struct{ name, text string }
+
+func sigTextMutations(r *Rng, s string) []sigTextMut {
+	var ms []sigTextMut
+	add := func(name, text string) {
+		if text != s {
+			ms = append(ms, sigTextMut{name, text})
+		}
+	}
+	for _, sfx := range []string{"!", "*", "=", "==", "====", " ", "\t", " x", ".", "-", "_", "\x00", "\x80", "AAAA", "QUJD", "QUJD!", "A", "AA", "AA==", "A==="} {
+		add(fmt.Sprintf("appended-%q", sfx), s+sfx)
+	}
+	for _, pfx := range []string{"!", "=", " ", "====", "-"} {
+		add(fmt.Sprintf("prepended-%q", pfx), pfx+s)
+	}
+	body := strings.TrimRight(s, "=")
+	if len(body) > 8 {
+		for _, ins := range []string{"!", " ", "=", "-", "_", "\x00"} {
+			p := 1 + r.Intn(len(body)-1)
+			add(fmt.Sprintf("inserted-%q-at-%d", ins, p), s[:p]+ins+s[p:])
+			q := 4 * (1 + r.Intn(len(body)/4-1)) // between two complete groups
+			add(fmt.Sprintf("inserted-%q-at-%d", ins, q), s[:q]+ins+s[q:])
+			p2 := r.Intn(len(body))
+			add(fmt.Sprintf("replaced-by-%q-at-%d", ins, p2), s[:p2]+ins+s[p2+1:])
+		}
+	}
+	if len(body) < len(s) {
+		add("padding-replaced-by-digits", body+strings.Repeat("A", len(s)-len(body)))
+		add("padding-replaced-by-!", body+strings.Repeat("!", len(s)-len(body)))
+		add("padding-then-signature-again", s+s)
+	}
+	for cut := 1; cut <= 3 && cut < len(body); cut++ {
+		add(fmt.Sprintf("last-%d-digits-cut", cut), body[:len(body)-cut]+s[len(body):])
+	}
+	return ms
+}
+
+// g is the output of Sign for rs under kp (already verified).
+func sigTextCase(r *Rng, kp *keyPair, g *dns.RRSIG, sf *sigF, rs []*rec) {
+	if _, err := base64.StdEncoding.DecodeString(g.Signature); err != nil {
+		return
+	}
+	for _, m := range sigTextMutations(r, g.Signature) {
+		g2 := dns.Copy(g).(*dns.RRSIG)
+		g2.Signature = m.text
+		st["sigtext_checked"]++
+		got := verifyCase(kp, kp.k, kp.owner, g2, sf, rs, false)
+		if got != "ok:" && got != "panic" {
+			continue
+		}
+		what := fmt.Sprintf("Signature text %s: %q instead of %q", m.name, m.text, g.Signature)
+		Viol("C10/Verify/accepts-altered-signature-text", "Verify("+got+") after changing the text of the Signature field ("+m.name+")", mkIn(kp, g2, sf, rs, what))
+	}
+}
